@@ -358,6 +358,21 @@ let dispatch (fn : string) (args : sx list) : sx =
   | "n_digits_of", [n] -> of_nat (n_digits_of (to_nat n))
   | "format_src", [parts; linenos; want; offset; prefix; partnos; lineno] ->
     of_str (format_src (to_list to_part parts) (to_bool linenos) (to_bool want) (to_bool offset) (to_bool prefix) (to_bool partnos) (to_nat lineno))
+  | "repr_failure_head", [exname; node; fpath; prefix; lineno; parts; skipped; logged; failed; tb; offs; partnos] ->
+    let to_failure = function
+      | A "directive" -> F_directive | A "import" -> F_import | A "compile" -> F_compile | A "gotwant" -> F_gotwant
+      | A "extractrepr" -> F_extract_repr | A "exception" -> F_exception | A "loop" -> F_existing_loop
+      | _ -> raise (Bad "failure") in
+    let fl = (match failed with
+        | A "none" -> None
+        | L [A "import"; f] -> Some (None, to_failure f)
+        | L [i; f] -> Some (Some (to_nat i), to_failure f)
+        | _ -> raise (Bad "failed")) in
+    (match repr_failure_head_of (to_str exname) (to_str node) (to_str fpath) (to_str prefix) (to_nat lineno)
+             (to_list to_part parts) (to_list to_nat skipped) (to_list (to_pair to_nat to_str) logged) fl
+             (to_nat tb) (to_bool offs) (to_bool partnos) with
+     | Some ls -> L [A "some"; of_lines ls]
+     | None -> A "none")
   | "dump_module", [es] ->
     let to_de = function
       | L [fnm; node; hdr; parts] -> { de_func_name = to_str fnm; de_node = to_str node; de_header = to_lines hdr; de_parts = to_list to_part parts }
